@@ -181,7 +181,10 @@ def build(spec):
         tz = spec.get('text_offsets', 'same') == 'zero' and offsets == 'header'
         az = (spec.get('text_offsets', 'same') == 'zero'
               and spec.get('analysis_offsets', 'header') == 'header')
-        text = encode_text(kv_list(0 if tz else bd, 0 if tz else ed, bs, es,
+        # 'other': TEXT declares different (wrong) DATA offsets while the HEADER holds the right ones;
+        # the HEADER has priority, so the file must still load correctly
+        to = 4 if (spec.get('text_offsets') == 'other' and offsets == 'header') else 0
+        text = encode_text(kv_list(0 if tz else bd + to, 0 if tz else ed + to, bs, es,
                                    0 if az else ba, 0 if az else ea),
                            delim, trailing=spec.get('text_trailing', True))
         pos = text_begin + len(text)
